@@ -25,7 +25,12 @@ import (
 
 func debugFreeOSMemory() { debug.FreeOSMemory() }
 
-func caseTimeout() time.Duration { return 10 * time.Second }
+func caseTimeout() time.Duration {
+	if os.Getenv("C12_CHILD") != "" {
+		return 120 * time.Second // one flood = hundreds of messages
+	}
+	return 10 * time.Second
+}
 
 func (G *gen) census() error {
 	cs, err := runCensus(repoRoot())
@@ -133,6 +138,16 @@ func runGenerated(c *hx.Ctx) error {
 		if kind == "populated" || (c.Tier != "quick" && i < 4) {
 			timed("fuzz", func() { G.fuzz(fx, scale(20000, 300000), scale(28000, 450000)) })
 		}
+		if kind == "populated" {
+			worldSeed := fx.seed
+			fx.close()
+			var ferr error
+			timed("floods", func() { ferr = G.floods(worldSeed) })
+			if ferr != nil {
+				return ferr
+			}
+			continue
+		}
 		fx.close()
 	}
 	return nil
@@ -150,6 +165,11 @@ func runReplay(c *hx.Ctx) error {
 		return err
 	}
 	cs := wrap.Replay
+	if cs.Section == "flood" && os.Getenv("C12_CHILD") == "" {
+		// a flood may end in a runtime fatal error: run it in a child process also when it is replayed
+		G := &gen{c: c, r: rand.New(rand.NewSource(1)), g: newGuard(caseTimeout()), seed: cs.Seed, cap: "-"}
+		return G.floodChild(cs)
+	}
 	G := &gen{c: c, r: rand.New(rand.NewSource(1)), g: newGuard(caseTimeout()), seed: cs.Seed, cap: "-"}
 	var fx *fixture
 	if cs.State != "-" && cs.State != "" {
@@ -165,6 +185,8 @@ func runReplay(c *hx.Ctx) error {
 		bound = frameCapOracle + 64*uint64(len(cs.Hex)/2)
 	case "msg", "fuzz-msg":
 		bound = allocBound(effectiveLen(unhex(cs.Hex)))
+	case "flood":
+		bound = 0 // hundreds of messages and a few mined blocks: no per-input allocation bound
 	}
 	r := G.exec(fx, cs, len(cs.Hex)/2, "", bound, nil)
 	c.Rep.Notes = append(c.Rep.Notes, fmt.Sprintf("replay: class=%q panic=%q site=%s line=%s hang=%v alloc=%d ms=%d", r.Class, r.Panic, r.Site, r.Line, r.Hang, r.Alloc, r.Millis))
